@@ -81,6 +81,17 @@ def run(tier, seed):
                           {"property": PID, "violation": v, "origin": "EngineConcGen abandon schedule replay"})
     sched_info["events_validated"] = ab_res["events"]
 
+    # a sub-query future dropped inside a live executor (hedged read, DSL mode 4): the executor requests a
+    # slow probe, reads a guard and a guarded dependency, then drops the pending probe; the dependencies
+    # it recorded must keep their order (a later repair checks the guard before the guarded one)
+    hcases = os.path.join(wd, "hedge.cases")
+    vp.run(["python3", os.path.join(vp.ROOT, "tools", "gen_hedge.py"), hcases, str(seed), "6" if quick else "60"])
+    for y in (1, 2):
+        trh = os.path.join(wd, f"hedge_y{y}.ndjson")
+        ec.eng_seq(bd, trh, mode="replay", yields=y, cfg="mem", **{"in": hcases})
+        traces.append({"trace": trh, "cases": hcases, "origin": f"hedged reads dropped inside executors (yields={y})",
+                       "strict": True})
+
     summary = ec.collect(PID, traces, verdict, known, "mem")
     baseline_same = ec.finish_candidates(PID, verdict, summary, wd, "eng_cancel", [])
     rc = verdict.finish()
@@ -89,6 +100,9 @@ def run(tier, seed):
     for t in traces:
         for l in open(t["cases"]):
             c = json.loads(l)
+            if "fault" not in c:
+                faults["hedged_read_dropped_in_executor"] = faults.get("hedged_read_dropped_in_executor", 0) + 1
+                continue
             faults[c["fault"]["f"]] += 1
             if len(sample) < 3 and c["fault"]["f"] != "cancel" or (len(sample) < 1):
                 sample.append({"fault": c["fault"], "nodes": len(c["prog"]["nodes"]), "prefix_actions": len(c["actions"])})
